@@ -955,6 +955,120 @@ theorem C15.resampling_nearest_refine (specs : List (K × K × Nat × Nat))
 example : resampling (refineDom [((0 : ℚ), (1 : ℚ), 3, 2)]) (refineRan [((0 : ℚ), (1 : ℚ), 3, 2)])
     (fun idx => if idx = [1] then (1 : ℚ) else 0) = [0, 0, 1, 1, 0, 0] := by decide +kernel
 
+/-- The way back, one axis: the fine node that nearest-neighbour interpolation on the `k·n`-cell grid
+selects for coarse node `i` lies in coarse cell `i` (index `/ k = i`) — for odd `k` the coarse node
+IS a fine node, for even `k` it falls on a fine cell boundary and the tie goes to the right
+neighbour, which is still in cell `i`. -/
+theorem C15.nearest_coarsen_hits_own_cell (lo hi : K) (n k i : Nat) (h : lo < hi) (hn : 2 ≤ n)
+    (hk : 1 ≤ k) (hi' : i < n) :
+    nearestIndex (uniformNode lo hi (k * n)) (k * n) (uniformNode lo hi n i) / k = i := by
+  have hkn : 2 ≤ k * n := le_trans hn (Nat.le_mul_of_pos_left n hk)
+  set x := uniformNode lo hi n i with hx
+  obtain ⟨hm, hcl⟩ := C15.nearest_is_closest (uniformNode lo hi (k * n)) (k * n) x
+    (uniformAxis_good lo hi (k * n) .nearest h hkn).incr hkn
+  set m := nearestIndex (uniformNode lo hi (k * n)) (k * n) x with hmdef
+  -- a fine node of cell `i` at distance at most one fine half cell: index `i * k + k / 2`
+  have hj : i * k + k / 2 < k * n := by
+    have h1 : k / 2 < k := Nat.div_lt_self (by omega) (by omega)
+    have h2 : (i + 1) * k ≤ n * k := Nat.mul_le_mul_right k (by omega)
+    have h3 : (i + 1) * k = i * k + k := by ring
+    have h4 : n * k = k * n := Nat.mul_comm n k
+    omega
+  have hle := (hcl (i * k + k / 2) hj).1
+  have hkK : (0 : K) < (k : K) := by exact_mod_cast hk
+  set H := (hi - lo) / (2 * ((k * n : Nat) : K)) with hH
+  have hHpos : 0 < H := by
+    apply div_pos (by linarith)
+    have : (0 : K) < ((k * n : Nat) : K) := by exact_mod_cast (by omega : 0 < k * n)
+    linarith
+  have hnK : (0 : K) < (n : K) := by exact_mod_cast (by omega : 0 < n)
+  have hcoarse : (hi - lo) / (2 * (n : K)) = (k : K) * H := by
+    rw [hH]; push_cast; field_simp
+  have hxe : x = lo + (2 * (i : K) + 1) * ((k : K) * H) := by
+    rw [hx, uniformNode_eq lo hi n i (by omega) hi', hcoarse]
+  have hF : ∀ q, q < k * n → uniformNode lo hi (k * n) q = lo + (2 * (q : K) + 1) * H :=
+    fun q hq => uniformNode_eq lo hi (k * n) q (by omega) hq
+  rw [hF m hm, hF _ hj, hxe] at hle
+  -- the comparison node is within one fine half cell
+  have hhalf : 2 * (k / 2) = k ∨ 2 * (k / 2) + 1 = k := by omega
+  have hjK : ((i * k + k / 2 : Nat) : K) = (i : K) * (k : K) + ((k / 2 : Nat) : K) := by push_cast; ring
+  have hbound : |lo + (2 * (i : K) + 1) * ((k : K) * H) - (lo + (2 * ((i * k + k / 2 : Nat) : K) + 1) * H)| ≤ H := by
+    rw [hjK, abs_le]
+    rcases hhalf with he | ho
+    · have : (k : K) = 2 * ((k / 2 : Nat) : K) := by exact_mod_cast he.symm
+      constructor <;> nlinarith
+    · have : (k : K) = 2 * ((k / 2 : Nat) : K) + 1 := by exact_mod_cast ho.symm
+      constructor <;> nlinarith
+  have hm_le := le_trans hle hbound
+  rw [abs_le] at hm_le
+  obtain ⟨hlo', hhi'⟩ := hm_le
+  -- back to integers: |(2 i + 1) k - (2 m + 1)| ≤ 1
+  have e1 : (2 * (i : K) + 1) * (k : K) - (2 * (m : K) + 1) ≤ 1 := by
+    by_contra hc
+    rw [not_le] at hc
+    nlinarith
+  have e2 : -1 ≤ (2 * (i : K) + 1) * (k : K) - (2 * (m : K) + 1) := by
+    by_contra hc
+    rw [not_le] at hc
+    nlinarith
+  have e1' : (2 * (i : ℤ) + 1) * (k : ℤ) - (2 * (m : ℤ) + 1) ≤ 1 := by exact_mod_cast e1
+  have e2' : -1 ≤ (2 * (i : ℤ) + 1) * (k : ℤ) - (2 * (m : ℤ) + 1) := by exact_mod_cast e2
+  have hP : (2 * (i : ℤ) + 1) * (k : ℤ) = 2 * ((i * k : Nat) : ℤ) + (k : ℤ) := by push_cast; ring
+  rw [hP] at e1' e2'
+  have hlow : i * k ≤ m := by omega
+  have hup : m < (i + 1) * k := by
+    have : (i + 1) * k = i * k + k := by ring
+    omega
+  rw [Nat.div_eq_iff (by omega)]
+  constructor
+  · exact hlow
+  · have : (i + 1) * k = i * k + k := by ring
+    omega
+
+/-- `Resampling(coarse, fine, 'nearest').inverse` (= `Resampling(fine, coarse, 'nearest')`, as
+executed by `resampling` with the roles swapped) applied to the refined array returns the original
+array: `inverse ∘ op = id` for nearest-neighbour refinement by integer factors, every dimension.
+The refined array is given by its index function, which `resampling_nearest_refine` shows to be
+exactly what `op` produces. -/
+theorem C15.resampling_nearest_refine_inverse (specs : List (K × K × Nat × Nat))
+    (hs : ∀ s ∈ specs, s.1 < s.2.1 ∧ 2 ≤ s.2.2.1 ∧ 1 ≤ s.2.2.2) (v : List Nat → V) :
+    resampling (refineRan specs) (refineDom specs)
+        (fun idx => v (List.zipWith (fun i s => i / s.2.2.2) idx specs)) =
+      (allIdx (refineDom specs)).map v := by
+  have hg : ∀ a ∈ refineRan specs, a.Good ∧ a.scheme = .nearest := by
+    intro a ha
+    obtain ⟨s, hsm, rfl⟩ := List.mem_map.mp ha
+    obtain ⟨h1, h2, h3⟩ := hs s hsm
+    exact ⟨uniformAxis_good _ _ _ _ h1 (le_trans h2 (Nat.le_mul_of_pos_left _ h3)), rfl⟩
+  rw [C15.resampling_samples_interpolant _ _ (fun a ha => (hg a ha).1) (by simp [refineDom, refineRan]),
+    gridPoints_eq, List.map_map, allIdx]
+  apply List.map_congr_left
+  intro idx hidx
+  have hv := mem_allIdx_lt (refineDom specs) idx hidx
+  simp only [Function.comp]
+  rw [C15.nearest_paths_agree _ hg]
+  unfold nearestInterp
+  beta_reduce
+  congr 1
+  clear hidx hg
+  induction specs generalizing idx with
+  | nil =>
+    cases hv
+    simp [refineDom, refineRan]
+  | cons s ss ih =>
+    cases hv with
+    | @cons _ i _ is hi hrest =>
+      obtain ⟨h1, h2, h3⟩ := hs s (by simp)
+      have ih' := ih (fun t ht => hs t (by simp [ht])) is hrest
+      simp only [refineDom, refineRan, List.map_cons, List.zipWith_cons_cons] at ih' ⊢
+      rw [ih']
+      congr 1
+      exact C15.nearest_coarsen_hits_own_cell s.1 s.2.1 s.2.2.1 s.2.2.2 i h1 h2 h3 hi
+
+/-- Non-vacuity: 3 → 6 → 3 cells on [0, 1] returns the data. -/
+example : resampling (refineRan [((0 : ℚ), (1 : ℚ), 3, 2)]) (refineDom [((0 : ℚ), (1 : ℚ), 3, 2)])
+    (fun idx => ([5, 7, 11] : List ℚ).getD (idx.headD 0 / 2) 0) = [5, 7, 11] := by decide +kernel
+
 /-- `linear_deform(template, displacement, interp)` as executed (`linearDeform`: displaced points
 `space.points() + displacement`, transposition, dispatch of `per_axis_interpolator`, `(d, N)`
 point-array convention) is the single-point interpolant of the template at every displaced grid
